@@ -229,6 +229,24 @@ class TotalWorld(OracleWorld):
                 ty = tys.pop()
                 if len(set(vals)) == 1:
                     return vals[0]
+                if ty == ip.OPTION and all(isinstance(v, Adt) or (isinstance(v.name, tuple) and v.name and v.name[0] == "w-opt") for v in vals):
+                    # None ⊔ Some(x) ⊔ (an earlier widened Option): an Option of unknown variant whose payload is
+                    # the widened payload
+                    somes = []
+                    for v in vals:
+                        if isinstance(v, Adt):
+                            if v.variant == 1:
+                                somes.append(v.fields[0])
+                        else:
+                            t_ = st.ext.get("tpl:%r" % (v.name,))
+                            if t_ is not None:
+                                somes.append(t_)
+                    if somes:
+                        payload = somes[0] if len(set(somes)) == 1 else self._widen_by_shape(st, somes, (hint, "some"))
+                        if payload is not None:
+                            w = Sym(("w-opt", hint, self.n(st)), next((v.ty for v in vals if "<" in v.ty), ip.OPTION + "<?>"))
+                            st.ext["tpl:%r" % (w.name,)] = payload
+                            return w
                 a = self.prog.adts.get(ty)
                 if a is not None and a["kind"] == "Enum" and all(not x["fields"] for x in a["variants"]):
                     return Sym(("w", hint, self.n(st)), ty)
@@ -312,6 +330,10 @@ class TotalWorld(OracleWorld):
                 ev["step"] = kn - ka
         if cands == ("struct",):
             if not self._inv_ok(st, assumed, arriving):
+                n_re = st.ext.get("rewiden:%r" % ((fr.uid, local),), 0)
+                if n_re < 3:
+                    st.ext["rewiden:%r" % ((fr.uid, local),)] = n_re + 1
+                    return "rewiden"
                 raise AnalysisError("the widened value of `%s` is not an invariant of the loop in %s (provenance of a component changes)" % (fr.body.local_name(local), fr.body.id))
             ev["invariants_hold"] = ["component-wise"]
         elif cands:
@@ -859,6 +881,35 @@ def _bsearch(w, m, st, callee, args, term):
     return ip.err(idx)
 
 
+def _partition_point(w, m, st, callee, args, term):
+    """slice.partition_point(pred): some index in 0..=len; the predicate is probed on an arbitrary element
+    (it must not panic), the binary search itself is std's."""
+    sl, clo = args
+    tab = slice_ident(m, st, sl)
+    elem = None
+    if isinstance(tab, str):
+        s_ = w.prog.statics.get(tab)
+        mm = re.match(r"^\[(.*);\s*\d+\]$", s_["ty"]) if s_ else None
+        if mm:
+            elem = Ref(("val", ty_.fresh(w.prog, mm.group(1), ("elem", w.n(st)))))
+    w.probe(m, st, clo, [elem if elem is not None else _elem_of(w, m, st, clo, "elem")])
+    return Sym(("ppidx", w.n(st)), "usize")
+
+
+def _opt_filter(w, m, st, callee, args, term):
+    """Option::filter(pred): the predicate is probed (it must not panic); which way it answers is left open, so
+    the paths of the predicate's own case analysis do not multiply the caller's."""
+    r = deref_all(m, st, args[0])
+    if not (isinstance(r, Adt) and r.ty == ip.OPTION):
+        return None
+    if r.variant == 0:
+        return r
+    w.probe(m, st, args[1], [Ref(("val", r.fields[0]))])
+    if w.decide(st, "filter", ["keep", "drop"]) == "keep":
+        return r
+    return ip.none()
+
+
 def _slice_get(w, m, st, callee, args, term):
     """slice.get(i): Some(&elem) when i is the Ok payload of a binary search on that very slice (always in
     bounds), otherwise either answer."""
@@ -917,6 +968,8 @@ def _lazy_get(w, m, st, callee, args, term):
 SPECIAL = {
     "core::slice::<impl [T]>::binary_search_by": _bsearch,
     "core::slice::<impl [T]>::get": _slice_get,
+    "core::slice::<impl [T]>::partition_point": _partition_point,
+    "core::option::Option::<T>::filter": _opt_filter,
     "core::iter::traits::iterator::Iterator::for_each": _for_each,
     "core::iter::range::<impl core::iter::traits::iterator::Iterator for core::ops::range::RangeInclusive<A>>::next": _ri_next,
     "core::str::<impl str>::char_indices": _char_indices,
